@@ -571,10 +571,13 @@ def rule_derived(ctx, rid, func, source, derived, tracker):
                            isinstance(s.value, ast.Name) and s.value.id == func.self_name
                            for s in ast.walk(n.ast.value)):
                         rebuilds.add(n.id)
+    loop_heads = {n.id for n in cfg.nodes if n.kind == 'test' and isinstance(n.ast, ast.While)}
     for s in sorted(src_nodes):
         ok = bool(rebuilds) and cfg.must_pass(s, cfg.exit.id, rebuilds)
-        # and no structural change of the source after the last rebuild
-        stale = [r for r in rebuilds if any(cfg.can_reach(r, s2) for s2 in src_nodes)]
+        # and no structural change of the source after the last rebuild (within one
+        # iteration of an enclosing driver loop)
+        stale = [r for r in rebuilds if any(cfg.can_reach(r, s2, avoid=loop_heads)
+                                            for s2 in src_nodes)]
         ok = ok and not stale
         ctx.ob(rid, '%s:derived(%s<-%s)@%d' % (func.qualname, derived, source,
                                                sorted(src_nodes).index(s)), ok,
